@@ -1,7 +1,10 @@
 (** C13 — non-vacuity: the model runs on literals, and every hypothesis of every property theorem
     is met by a concrete instance. *)
+From Coq Require Import ZArith String.   (* before mathcomp, so that its nat notations win *)
 From mathcomp Require Import all_ssreflect.
-From RlibV Require Import C13.Model C13.Ghost C13.Properties.
+From RlibV Require Import C13.Model C13.Ghost C13.Corr C13.Properties.
+(* Corr.v opens Z_scope and that is exported; here nat is the default, Z terms carry %Z *)
+Local Close Scope Z_scope.
 
 Example ex_run_30 :
   (mnp (sieve 30), prs (sieve 30)) =
@@ -77,3 +80,26 @@ Example ex_factorize_spec :
   exists2 f, factorize (sieve 100) 84 = Some f &
     [/\ 84 = \prod_(pc <- f) pc.1 ^ pc.2, all (fun pc => prime pc.1 && (0 < pc.2)) f & sorted ltn (unzip1 f)].
 Proof. exact: c13_factorize_spec. Qed.
+
+(** correspondence cases of limit 10 as the executor prints them: the hypothesis [model_check c = true]
+    holds by computation, the specification follows by the theorem (and agrees with running it) *)
+Definition ex_tab_10 : case :=
+  CTab 10 [:: 0; 0; 2; 3; 2; 5; 2; 7; 2; 3; 2]%Z "00110101000"%string [:: 2; 3; 5; 7]%Z.
+Definition ex_fact_10 : case :=
+  CFact 10 [:: -2; -1;  -1;  2; 1; -1;  3; 1; -1;  2; 2; -1;  5; 1; -1;  2; 1; 3; 1; -1;  7; 1; -1;
+               2; 3; -1;  3; 2; -1;  2; 1; 5; 1; -1]%Z.
+Example ex_model_check_tab : model_check ex_tab_10 = true.
+Proof. by vm_compute. Qed.
+Example ex_model_check_fact : model_check ex_fact_10 = true.
+Proof. by vm_compute. Qed.
+Example ex_model_check_spec_check_tab : spec_check ex_tab_10 = true.
+Proof. exact: c13_model_check_spec_check ex_model_check_tab. Qed.
+Example ex_model_check_spec_check_fact : spec_check ex_fact_10 = true.
+Proof. exact: c13_model_check_spec_check ex_model_check_fact. Qed.
+Example ex_spec_check_run : (spec_check ex_tab_10, spec_check ex_fact_10) = (true, true).
+Proof. by vm_compute. Qed.
+(** the theorem is not vacuous the other way round: a wrong table fails [model_check] (and [spec_check]) *)
+Example ex_wrong_table :
+  let c := CTab 10 [:: 0; 0; 2; 3; 2; 5; 2; 7; 2; 3; 5]%Z "00110101000"%string [:: 2; 3; 5; 7]%Z in
+  (model_check c, spec_check c) = (false, false).
+Proof. by vm_compute. Qed.
